@@ -249,7 +249,7 @@ func genSRCase(t *rapid.T) SRCase {
 			}
 			return col + " " + op + " " + lit
 		default:
-			return "(" + sqlgen.Expr(t, sqlgen.Opts{Dialect: sqlgen.MySQL}, rapid.IntRange(1, 2).Draw(t, "depth")) + ")"
+			return "(" + sqlgen.Expr(t, sqlgen.Opts{RawByteNames: true, Dialect: sqlgen.MySQL}, rapid.IntRange(1, 2).Draw(t, "depth")) + ")"
 		}
 	}
 	var where func(d int) string
